@@ -38,6 +38,7 @@ func checkC05(r *core.Run) {
 	c05ErrorRegistry(r)
 	copyAddressedByFlag(r)
 	memberCountFollowsMembership(r)
+	c05QuorumErrorKeepsIdentity(r)
 }
 
 const syncPut = "internal/dmap.(*DMap).syncPutOnCluster"
